@@ -228,6 +228,7 @@ func replayPO(ld *Loaded, po *sym.PO, st *sym.State, j Job, opt Options, res *sy
 	}
 	r.MaxPaths = 20000
 	rp := sym.NewPOReplay(po, res.Sched, "")
+	rp.NeedViolation = len(res.FailedEv) > 0
 	func() {
 		defer func() {
 			if e := recover(); e != nil {
